@@ -153,6 +153,10 @@ impl Ctx {
         }
     }
 
+    pub fn n_known(&self) -> u64 {
+        self.known_hits.values().sum()
+    }
+
     pub fn n_violations(&self) -> u64 {
         self.viol.values().map(|v| v.0).sum()
     }
@@ -253,4 +257,25 @@ pub fn catch<T>(f: impl FnOnce() -> T) -> Result<T, String> {
 
 pub fn silence_panics() {
     std::panic::set_hook(Box::new(|_| {}));
+}
+
+/// Run `f` on a worker thread with a wall-clock cap.  Err(None) = timed out (the worker is
+/// leaked; the process exits through `std::process::exit` anyway), Err(Some(msg)) = panicked.
+pub fn with_timeout<T: Send + 'static>(
+    secs: f64,
+    f: impl FnOnce() -> T + Send + 'static,
+) -> Result<T, Option<String>> {
+    let (tx, rx) = std::sync::mpsc::channel();
+    std::thread::Builder::new()
+        .stack_size(64 << 20)
+        .spawn(move || {
+            let r = catch(f);
+            let _ = tx.send(r);
+        })
+        .expect("spawn");
+    match rx.recv_timeout(std::time::Duration::from_secs_f64(secs)) {
+        Ok(Ok(v)) => Ok(v),
+        Ok(Err(e)) => Err(Some(e)),
+        Err(_) => Err(None),
+    }
 }
